@@ -88,7 +88,7 @@ Proof. unfold rebuild_ts. destruct (tls_passthrough c); reflexivity. Qed.
 Lemma objs_rebuild_gc c s : objs_of_state (fst (fst (rebuild_gc c s))) = objs_of_state s.
 Proof. reflexivity. Qed.
 
-Lemma objs_with_error b k out : fst (fst (with_validation_error b k out)) = fst (fst out).
+Lemma objs_with_error b k u out : fst (fst (with_validation_error b k u out)) = fst (fst out).
 Proof.
   destruct out as [[s cs] ps]. unfold with_validation_error. destruct b; [|reflexivity].
   destruct (attach_error k cs); reflexivity.
@@ -106,7 +106,7 @@ Proof.
     + rewrite objs_rebuild_hosts. reflexivity.
     + cbn. rewrite remove_absent by (apply mem_false_lookup; exact Hm). reflexivity.
   - set (s' := set_vsrs s _). change (objs_of_state (fst (fst (let '(s2, cs, ps) := rebuild_hosts c s' in
-        (s2, cs, if cls && negb valid then ps +++ [mkP (vsr_pkey r) true rejected "invalid"] else ps))))
+        (s2, cs, if cls && negb valid then ps +++ [mkP (vsr_pkey r) (m_uid (r_meta r)) true rejected "invalid"] else ps))))
         = apply_event (objs_of_state s) (EVSR r cls valid)).
     destruct (rebuild_hosts c s') as [[s2 cs] ps] eqn:Hr. cbn [fst].
     change s2 with (fst (fst (s2, cs, ps))). rewrite <- Hr, objs_rebuild_hosts. reflexivity.
